@@ -745,7 +745,7 @@ Theorem buf_ensure_space_refines junk ok b n : buf_inv b -> 0 <= n < BUF_ALLOC_L
     ((st = ARES_EFORMERR /\ s_const (buf_abs b) = true /\ b' = b) \/
      (st = ARES_SUCCESS /\ buf_not_const b /\ b_hasabuf b' = true /\ b_dlen b' + n < b_alloc b') \/
      (st = ARES_ENOMEM /\ buf_not_const b /\
-      (ok = false \/ BUF_ALLOC_LIMIT <= 2 * b_alloc b \/ BUF_ALLOC_LIMIT <= 2 * (b_dlen b + n + 1)))).
+      (ok = false \/ BUF_ALLOC_LIMIT <= 2 * (b_dlen b + n + 1)))).
 Proof.
   intros Hi Hn. unfold buf_ensure_space. rewrite buf_is_const_eq. cbn [bind].
   destruct (b_hasdata b && negb (b_hasabuf b)) eqn:Ec; cbn [b2z Z.eqb negb].
@@ -811,8 +811,8 @@ Proof.
   - exists ARES_ENOMEM, b1. split; [reflexivity|]. split; [exact Hi1|]. split; [right; exact Habs1|].
     split; [auto|]. right. right. split; [reflexivity|]. split; [exact Ec|].
     apply andb_false_iff in Eans. destruct Eans as [Eok | Elim]; [left; exact Eok|].
-    right. apply Z.ltb_ge in Elim. destruct Hg4 as [Hg4 | Hg4]; [|right; lia].
-    destruct Ha0c as [Ha16 | Haeq]; [buf_consts; lia|]. left. lia.
+    right. apply Z.ltb_ge in Elim. destruct Hg4 as [Hg4 | Hg4]; [|lia].
+    destruct Ha0c as [Ha16 | Haeq]; [buf_consts; lia|]. lia.
 Qed.
 
 (* ------------------------------------------------------------------------------------- *)
@@ -863,8 +863,7 @@ Theorem buf_append_refines junk ok b bytes : buf_inv b -> buf_zlen bytes < BUF_A
   exists st b', buf_append junk ok b bytes = Ok (st, b') /\ buf_inv b' /\
     In (st, buf_abs b') (spec_append_alts (buf_abs b) bytes) /\
     ((forall i, 0 <= junk i < 256) -> buf_bytes_ok (b_mem b) -> buf_bytes_ok bytes -> buf_bytes_ok (b_mem b')) /\
-    (st = ARES_ENOMEM -> ok = false \/ BUF_ALLOC_LIMIT <= 2 * b_alloc b \/
-                         BUF_ALLOC_LIMIT <= 2 * (b_dlen b + buf_zlen bytes + 1)).
+    (st = ARES_ENOMEM -> ok = false \/ BUF_ALLOC_LIMIT <= 2 * (b_dlen b + buf_zlen bytes + 1)).
 Proof.
   intros Hi Hlen. unfold buf_append, spec_append_alts.
   pose proof (buf_zlen_nonneg bytes) as Hbn.
